@@ -28,6 +28,12 @@ OK_KEYS = ("natural", "name")
 
 def sort_keys(ctx: core.Ctx, mods):
     n = 0
+    all_wrappers = set()
+    for m, rel in mods.items():
+        t0 = ctx.parse(rel)
+        all_wrappers |= {f.name for f in ast.walk(t0) if isinstance(f, ast.FunctionDef)
+                         and len([x for x in f.body if not (isinstance(x, ast.Expr) and isinstance(x.value, ast.Constant))]) <= 2
+                         and any(isinstance(c, ast.Call) and isinstance(c.func, ast.Name) and c.func.id == "sorted" for c in ast.walk(f))}
     for m, rel in mods.items():
         tree = ctx.parse(rel)
         fn_of = {}
@@ -38,10 +44,10 @@ def sort_keys(ctx: core.Ctx, mods):
         # a helper that wraps sorted() (`_sorted_by_name(xs)`): each of its call sites is a sorted() site judged through the helper's own sorted()
         wrappers = {f.name for f in ast.walk(tree) if isinstance(f, ast.FunctionDef) and len([x for x in f.body if not (isinstance(x, ast.Expr) and isinstance(x.value, ast.Constant))]) <= 2
                     and any(isinstance(c, ast.Call) and isinstance(c.func, ast.Name) and c.func.id == "sorted" for c in ast.walk(f))}
+        wrappers |= all_wrappers
         for c in ast.walk(tree):
             if isinstance(c, ast.Call) and ((isinstance(c.func, ast.Name) and c.func.id in wrappers) or
-                                            (isinstance(c.func, ast.Attribute) and c.func.attr in wrappers and isinstance(c.func.value, ast.Name)
-                                             and c.func.value.id in ("self", "cls"))):
+                                            (isinstance(c.func, ast.Attribute) and c.func.attr in wrappers and isinstance(c.func.value, ast.Name))):
                 n += 1
         for c in ast.walk(tree):
             if isinstance(c, ast.Call) and isinstance(c.func, ast.Name) and c.func.id == "sorted":
